@@ -13,6 +13,8 @@ UNITS = [
     U("getters_numeric", "h_getters_numeric", canaries=1, defines=["INI_LINES=2", "INI_LINE_MAX=4"], functions=["p_ini_file_parameter_int"], bound="fixed object, value text '010'"),
     U("getters_list_single", "h_getters_allocfail", canaries=2, defines=["GETTER=5", "INI_LINES=2", "INI_LINE_MAX=4"], functions=[], bound="fixed object: list value '{c}'"),
     U("getters_list", "h_getters_allocfail", canaries=2, defines=["GETTER=4", "INI_LINES=2", "INI_LINE_MAX=4"], functions=["p_ini_file_parameter_list"], bound="fixed object: list value '{abc d  ef}'"),
+] + [U("getter_boolean_%d" % t, "h_getter_boolean_word", canaries=1, defines=["TEMPLATE=%d" % t, "INI_LINES=2", "INI_LINE_MAX=4"], functions=["p_ini_file_parameter_boolean"] if t == 0 else [], timeout=1200,
+          bound="fixed object, value text '%s'" % ("true", "TRUE", "false", "FALSE")[t]) for t in range(4)] + [
     U("getters", "h_getters", canaries=3, functions=["pp_ini_file_find_parameter", "p_ini_file_parameter_string", "p_ini_file_is_key_exists"], bound="one section, two keys, all names/values/queries of length <= 3"),
 ]
 # removed from both tiers because they did not finish in the final thorough run under load (an hour each, or out of memory): parse_robust_line (one line of <= 8 arbitrary bytes without a section header),
@@ -21,7 +23,7 @@ REQUIRE_CONFIGURED = S
 TECHNIQUE = "BOUNDED stand-in (small bounds -- the weakest check in this set): CBMC on the real pinifile.c/pstring.c with models of fgets and of sscanf's scanset semantics; unwinding assertions on"
 LEVEL_TEXT = ("p_strchomp against its specification for every string up to the bound; p_ini_file_parse on every file of a section header followed by one line of at most 4 (quick) / 6 (thorough) arbitrary bytes: no "
               "memory error, file closed, every listed section has a key, every key a value, everything released; the documented value forms (comment removal, quotes, comment marker inside quotes, "
-              "first '=', empty quoted value with a trailing comment, the three byte-order marks, a line before any section, a repeated key, a comment line) on ten concrete templates; getters: exact key match, last assignment wins, defaults, a brace list with shrinking items and repeated blanks, a one-item list, the integer getter as atoi of the stored text. The parser's strings "
+              "first '=', empty quoted value with a trailing comment, the three byte-order marks, a line before any section, a repeated key, a comment line) on ten concrete templates; getters: exact key match, last assignment wins, defaults, a brace list with shrinking items and repeated blanks, a one-item list, the integer getter as atoi of the stored text, the boolean getter on the four documented words. The parser's strings "
               "make unbounded contracts impractical with the installed back ends (string loops over symbolic bytes), hence small bounds; counted as bounded model checking only.")
 LEVEL_NOTE = ("Bounds: lines <= 12 bytes, <= 2 lines, object strings <= 3 characters; the 1024-byte line limit paths are NOT reached. Trusted: fgets/sscanf/isspace models (env/stdio_ini.c), allocator. "
               "Not decided: numeric accuracy of p_strtod, atoi itself (the getters are proved to hand it exactly the stored text), the grammar beyond the templates, behaviour where the real sscanf differs from the model.")
